@@ -204,3 +204,68 @@ type c09H struct {
 
 //verif:opt maxpaths=4000 reach=accepted,rejected
 func Harness_C09_H_decode() { c09DecodeLaw[c09H](6 + vChoice("len", 6+2*vTier())) }
+
+// Vectors of fixed-width integers whose wire width differs from their Go size (Uint24 is 3 bytes on
+// the wire, 4 in memory), next to a uint16 vector with a minimum length.
+type c09I struct {
+	V []Uint24 `tls:"minlen:0,maxlen:12"`
+	W []uint16 `tls:"minlen:2,maxlen:8"`
+}
+
+//verif:opt maxpaths=4000 reach=accepted,rejected
+func Harness_C09_I_decode() { c09DecodeLaw[c09I](3 + vChoice("len", 8+2*vTier())) }
+
+//verif:opt maxpaths=3000 reach=encoded,refused
+func Harness_C09_I_encode() {
+	nv, nw := vChoice("nv", 4), vChoice("nw", 4)
+	v := c09I{V: []Uint24{}, W: []uint16{}}
+	for i := 0; i < nv; i++ {
+		v.V = append(v.V, Uint24(vU32("v")&0xffffff))
+	}
+	for i := 0; i < nw; i++ {
+		v.W = append(v.W, vU16("w"))
+	}
+	out := c09EncodeLaw(v)
+	if nw >= 1 {
+		vAssert(out != nil && len(out) == 1+3*nv+1+2*nw, "RFC length: prefixes count bytes, uint24 elements take three")
+		vAssert(int(out[0]) == 3*nv && int(out[1+3*nv]) == 2*nw, "vector prefixes are byte lengths")
+	} else {
+		vAssert(out == nil, "vector shorter than its minimum refused")
+	}
+}
+
+// A vector of structures with a non-zero minimum length (the shape of sct_list<1..2^16-1>): the
+// empty vector is refused in both directions.
+type c09J struct {
+	L []c09Inner `tls:"minlen:1,maxlen:65535"`
+	T uint8
+}
+
+//verif:opt maxpaths=4000 reach=accepted,rejected
+func Harness_C09_J_decode() { c09DecodeLaw[c09J](2 + vChoice("len", 7+2*vTier())) }
+
+//verif:opt maxpaths=3000 reach=encoded,refused
+func Harness_C09_J_encode() {
+	n := vChoice("n", 3)
+	v := c09J{T: vU8("t")}
+	if vChoice("nil-or-empty", 2) == 1 {
+		v.L = []c09Inner{}
+	}
+	for i := 0; i < n; i++ {
+		v.L = append(v.L, c09Inner{A: vU16("a"), B: [2]byte{vU8("b0"), vU8("b1")}})
+	}
+	out, err := Marshal(v)
+	if n == 0 {
+		vAssert(err != nil && out == nil, "an empty vector below the declared minimum is refused on encode, as it is on decode")
+		var w c09J
+		_, derr := Unmarshal([]byte{0, 0, v.T}, &w)
+		vAssert(derr != nil, "and on decode")
+		vReach("refused")
+		return
+	}
+	vAssert(err == nil && len(out) == 2+4*n+1 && int(out[1]) == 4*n && out[len(out)-1] == v.T, "RFC layout: 2-byte prefix, elements, trailing field")
+	var w c09J
+	rest, derr := Unmarshal(out, &w)
+	vAssert(derr == nil && len(rest) == 0 && len(w.L) == n && w.T == v.T, "round trip")
+	vReach("encoded")
+}
